@@ -215,13 +215,13 @@ theorem pollBytes_spec {σ : Type} (step : σ → RdEv → σ × List Msg) (isDo
   unfold pollBytes
   simp only [hnd, Bool.false_eq_true, ↓reduceIte, hrun]
   by_cases hc : (!isDone (runSteps step s ((ms.take j).map RdEv.msg)).1 && closed &&
-      decide ((wireOfAll ms).length ≤ n)) = true
+      decide ((wireOfAll ms).length < n)) = true
   · -- EOF branch
     right
     have hc0 := hc
     simp only [Bool.and_eq_true, Bool.not_eq_true', decide_eq_true_eq] at hc
     obtain ⟨⟨hnd2, hcl⟩, hlen⟩ := hc
-    have hdrop : (wireOfAll ms).drop n = [] := List.drop_of_length_le hlen
+    have hdrop : (wireOfAll ms).drop n = [] := List.drop_of_length_le (Nat.le_of_lt hlen)
     rw [hdrop, List.append_nil] at hrest
     rcases hstop with h | ⟨hnone, hjl⟩
     · rw [hnd2] at h; cases h
